@@ -15,7 +15,7 @@ def both(cmd, extra=None, timeout=900):
 
 PROPS = {}
 NOT_APPLICABLE_REASON = {}
-HOOK_COMMITS = ["b850110"]
+HOOK_COMMITS = ["b850110", "d36f913"]
 
 PROPS["C20"] = {
     "level": "exploration",
@@ -101,6 +101,7 @@ PROPS["C02"] = {
 
 PROPS["C03"] = {
     "level": "exploration",
+    "signal_is_violation": True,
     "technique": "runtime monitoring: panic/abort/guard-zone/consumed-length monitors over deterministic sweeps and seeded mutations of every parsing entry point; debug+release, ASan with exact-size buffers, Miri sample, child processes for stack overflow, watchdog for non-termination",
     "level_text": ("Calls every parsing entry point under catch_unwind with the output slice embedded in canary zones "
                    "(native) or exactly sized (ASan/Miri): every prefix and every single-byte corruption (16 chosen "
@@ -167,6 +168,7 @@ PROPS["C08"] = {
 
 PROPS["C19"] = {
     "level": "exploration",
+    "signal_is_violation": True,
     "technique": "runtime monitoring: accessor-faithfulness oracle and refuse-or-faithful monitor over size-boundary inputs and complete output-buffer-length sweeps; debug+release, ASan, Miri sample",
     "level_text": ("Every constructor (Tags/Event/Filter from_parts, the Owned* constructors, sign_new, the three JSON "
                    "entry points) is run on part lists on both sides of every 16-bit field (tag section 65,534..131,072 "
@@ -181,4 +183,181 @@ PROPS["C19"] = {
              "through all its constructors and buffer lengths. distinct = hash of (family, shape); non-trivial = not "
              "the empty tags value. Counters give the number of buffer-length cases."),
     "assumptions": ["content longer than 4 GiB (the u32 field) is not exercised"],
+}
+
+
+# ------------------------------------------------------------------------------------------
+# pocket-db properties decided by reference-model history monitors
+
+DB_NOTE = ("Trusted: the reference model in harness/src/model.rs (DESIGN.md Appendix A) and the LMDB/heed/mmap "
+           "layers below pocket-db. Histories run sequentially in one process against a real Store in a scratch "
+           "directory; reopen closes the LMDB environment for real (hook verif_close). Observed executions only.")
+
+
+def db_legs(cmd, tier, asan=True, valgrind=False, parallel_thorough=0):
+    t = 7200 if tier == "thorough" else 900
+    legs = both(cmd, timeout=t)
+    if tier == "thorough":
+        if asan:
+            legs.append(leg("asan", "asan", [cmd, "--tier-override", "quick"], timeout=t, mandatory=False))
+        if valgrind:
+            legs.append(leg("valgrind", "release", [cmd, "--small"], timeout=t, mandatory=False,
+                            wrap=["valgrind", "--error-exitcode=0", "--quiet", "--track-origins=no"]))
+        # more seeds in parallel processes
+        for i in range(parallel_thorough):
+            legs.append(leg(f"debug-s{i+1}", "debug", [cmd, "--seed-add", str(i + 1)], timeout=t, mandatory=False))
+    return legs
+
+
+def hist_rule(what, nontrivial):
+    return ("seeded operation histories (" + what + ") executed against a real Store with the reference model in "
+            "lock-step; after every step the monitors named in the level text run. distinct = 64-bit hash of the "
+            "history's operation/outcome log; non-trivial = " + nontrivial + ". Counters give steps, store outcomes by "
+            "(model reasons : observed result), file growth events, reopens, rebuilds, queries per index plan.")
+
+
+PROPS["C04"] = {
+    "level": "exploration",
+    "technique": "runtime monitoring: history monitor re-reading every offset ever returned after every step + id lookups vs reference model; debug (2 KiB chunks) + release (4 MiB chunks), ASan, valgrind memcheck",
+    "level_text": ("Histories of stores (every alignment residue, sizes straddling the growth chunk, multi-chunk "
+                   "events), removals, deletions of other events, failed stores, reopen at every position of short "
+                   "histories and rebuild; after every step every offset returned so far in the current file is read "
+                   "back and compared byte-for-byte, offsets must be pairwise distinct, and every retrievable id "
+                   "must return its bytes. The debug build grows the map every few events (growth count in the "
+                   "evidence); the release leg stores ~60 KiB events until the 4 MiB map has grown at least twice."),
+    "level_note": DB_NOTE,
+    "legs": lambda tier: db_legs("c04", tier, valgrind=True, parallel_thorough=6),
+    "rule": hist_rule("profile append", "the history contains at least one file growth or reopen after the first store"),
+    "assumptions": ["a rebuild starts a new file: offsets are tracked per file generation"],
+}
+
+PROPS["C05"] = {
+    "level": "exploration",
+    "technique": "runtime monitoring: model-based query oracle (exact set, order, newest-k, redacted flag, scraper rule) over generated histories x per-plan filter shapes; debug+release, ASan",
+    "level_text": ("After histories with few authors/kinds/tag values and clustered timestamps (ties, values differing "
+                   "in high bytes), ~30-60 filters per state are generated per index plan (ids; author+kind; "
+                   "author+tag; kind+tag; tag; author; scrape) x limit shapes x time-window shapes x one/several "
+                   "values and letters x four screening functions x scraping allowances, and the result is compared "
+                   "with the reference predicate over the model's retrievable set: no foreign, unretrievable, "
+                   "screened-out or duplicate event, newest first, exact size min(limit, qualifying), nothing "
+                   "omitted that is newer than something returned, redacted flag only with a redacted match, "
+                   "refusal as scraping only when justified for some clock value in the call interval; the same "
+                   "constraint is also issued through other plans (all ids / all authors added)."),
+    "level_note": DB_NOTE + " Ids 00..00 / ff..ff are not generated (range bounds). Constraint names other than single letters are issued for the never-panics clause only.",
+    "legs": lambda tier: db_legs("c05", tier, parallel_thorough=6),
+    "rule": hist_rule("profile query", "at least three retrievable events when the filters are evaluated"),
+    "assumptions": ["tag constraint names are single ASCII letters (what NIP-01 and the JSON parser produce)"],
+}
+
+PROPS["C09"] = {
+    "level": "exploration",
+    "technique": "runtime monitoring: outcome rules + reference-model equality + address invariant after every step; exhaustive classification of all 65,536 kinds; debug+release, ASan",
+    "level_text": ("All 65,536 kinds are classified against the NIP-01 ranges (exhaustive). Histories over 2 authors, "
+                   "kinds on every range boundary, a collision-prone pool of d values (empty, x, x\\0, x\\0\\0, 181/182/183 "
+                   "bytes, shared 182-byte prefixes, 400 bytes, non-first d tags) and four timestamps so that every "
+                   "arrival order occurs; every store outcome is judged (newer never 'replaced', older never "
+                   "accepted, equal either), and after every step every id, holder lookup, marker and index count "
+                   "is compared with the model and every address must have at most one retrievable event; lookups "
+                   "at addresses never used must find nothing; author+kind and #d queries are checked at the end."),
+    "level_note": DB_NOTE,
+    "legs": lambda tier: db_legs("c09", tier, parallel_thorough=6),
+    "rule": hist_rule("profile replace", "at least two distinct addresses were used"),
+    "exhaustive_note": "exhaustive for the kind classification (65,536 kinds) only",
+    "assumptions": ["parameterised events whose first d tag has no value are not generated"],
+}
+
+PROPS["C10"] = {
+    "level": "exploration",
+    "technique": "runtime monitoring: victim-view guard (before/after every kind-5 request) + reference-model equality + unjustified-'deleted' rule; debug+release, ASan",
+    "level_text": ("Histories with two authors in which ~30% of the steps are kind-5 requests with 1-6 tags mixing own "
+                   "ids, the other author's retrievable ids, absent ids, malformed hex, own and foreign addresses "
+                   "(replaceable and parameterised) and malformed addresses in every order. Around every such "
+                   "request the view of all events not authored by the requester (retrievability by id, by address, "
+                   "by author query, id and address markers) is captured before and after and must be identical "
+                   "whatever the request returned; later submissions by the victim must never be refused as deleted "
+                   "on account of a request that named them and failed."),
+    "level_note": DB_NOTE,
+    "legs": lambda tier: db_legs("c10", tier, parallel_thorough=6),
+    "rule": hist_rule("profile foreign-delete", "at least one kind-5 request was guarded"),
+    "assumptions": ["ids that are not stored when a request arrives are outside the property (the code marks them deliberately)"],
+}
+
+PROPS["C11"] = {
+    "level": "exploration",
+    "technique": "runtime monitoring: shadow cover map in the reference model + outcome rules + monotonicity monitor on naddr_is_deleted_asof, across reopen and rebuild; debug+release, ASan",
+    "level_text": ("Histories in which a quarter of the steps are accepted deletion requests for the same ids and "
+                   "addresses in every timestamp order, interleaved with stores and resubmissions of covered and "
+                   "newer events, reopen and rebuild. Every store of a covered event must be refused as deleted, "
+                   "events newer than every accepted deletion must not be, every covered event must be unretrievable "
+                   "by every path after every step, and the deletion time reported for every address ever named is "
+                   "sampled after every step and must never decrease."),
+    "level_note": DB_NOTE,
+    "legs": lambda tier: db_legs("c11", tier, parallel_thorough=6),
+    "rule": hist_rule("profile delete", "at least one id or address marker exists at the end"),
+    "assumptions": ["addresses are written canonically (kind:author:d, empty d for non-parameterised kinds); d <= 400 bytes for marker lookups"],
+}
+
+PROPS["C12"] = {
+    "level": "exploration",
+    "technique": "runtime monitoring: full observable snapshot before/after every failing store, with failure injection at verif points; debug+release, ASan",
+    "level_text": ("More than half of the stores fail: duplicates, covered by deletions, older than the holder, "
+                   "kind-5 requests whose k-th tag is foreign after k-1 effective ones (up to 40 tags), address "
+                   "markers too long for an LMDB key, and failures injected through the verif::fail hook at each "
+                   "stage (after pre-removal, after append, after index, after the j-th deletion tag, between the two "
+                   "de-index steps, before commit). A snapshot of every id lookup, marker, holder lookup, a battery "
+                   "of queries per index plan, index entry counts and extra tables is taken before each store and "
+                   "must be identical afterwards whenever the store returned an error."),
+    "level_note": DB_NOTE + " event_bytes / disk usage are deliberately not part of the snapshot (failed stores leak appended bytes by design).",
+    "legs": lambda tier: db_legs("c12", tier, parallel_thorough=6),
+    "rule": hist_rule("profile failing-stores", "at least one failing store was snapshotted"),
+    "assumptions": ["injected failures stand in for I/O and MDB_MAP_FULL errors that inputs cannot provoke"],
+}
+
+PROPS["C16"] = {
+    "level": "exploration",
+    "technique": "runtime monitoring: full observable snapshot before/after reopen and rebuild at every position of short histories (incl. two rebuilds), compaction and backup probes; debug+release, ASan",
+    "level_text": ("Histories leaving removed, replaced, deleted, ephemeral and failed-store leftovers, id and address "
+                   "markers with empty/181-183/200/400-byte/binary d values and 0-3 extra tables with binary rows; "
+                   "reopen (LMDB environment really closed; also with a superset of table names) or rebuild is "
+                   "inserted at every position of short histories and random positions of long ones, twice per "
+                   "history incl. two rebuilds; the snapshot before must equal the snapshot after; after a rebuild "
+                   "event_bytes must lie within [8+sum(len), 8+sum(len+7)] of the retrievable events and both backup "
+                   "paths must exist; the history then continues under the model."),
+    "level_note": DB_NOTE,
+    "legs": lambda tier: db_legs("c16", tier, parallel_thorough=6),
+    "rule": hist_rule("profile lifecycle", "more than two of (retrievable events, id markers, address markers) exist at the end"),
+    "assumptions": ["contents of the backup and offsets across a rebuild are not demanded"],
+}
+
+PROPS["C17"] = {
+    "level": "exploration",
+    "technique": "runtime monitoring: derived-filter completeness/soundness monitor for every event after every step + index entry counts vs model + drain-to-empty phase; debug+release, ASan, valgrind memcheck",
+    "level_text": ("Histories over events with repeated tags, the same value under different letters, values longer "
+                   "than 182 bytes, shared prefixes, empty values, multi-string tags and many single-letter tags, "
+                   "removed through all routes (remove_event, vanish, kind-5 by id and by address, replacement). "
+                   "After every step every filter derived from each event's own fields (id; author; author+kind; "
+                   "each single-letter tag value alone, with author, with kind, with a limit; a closed time window) "
+                   "must return it iff it is retrievable, and the i/ci/ac/akc entry counts must equal the number of "
+                   "retrievable events; a drain phase removes everything by a random mix of routes and all seven "
+                   "index counts must be zero."),
+    "level_note": DB_NOTE,
+    "legs": lambda tier: db_legs("c17", tier, valgrind=True, parallel_thorough=6),
+    "rule": hist_rule("profile index", "more than ten steps"),
+    "assumptions": [],
+}
+
+PROPS["C18"] = {
+    "level": "exploration",
+    "technique": "runtime monitoring: reference-model equality after every remove_event / vanish (exact target set, markers, tables), resubmission rule, ephemeral-kind probes; debug+release, ASan",
+    "level_text": ("Histories with three authors over all kind classes, gift wraps (1059) naming the target in the "
+                   "first p tag, a later p tag, only as a non-first value, or another author, near-miss kinds 1058 / "
+                   "1060, deletion markers and extra-table rows; remove_event of present, absent and already removed "
+                   "ids and vanish of present and absent authors; after every step all ids, holders, markers, index "
+                   "counts and tables are compared with the model (exactly the targets are gone), removed events "
+                   "resubmitted must not be refused as duplicate or deleted, ephemeral kinds must store Ok, read "
+                   "back by offset and never be returned by id or query."),
+    "level_note": DB_NOTE,
+    "legs": lambda tier: db_legs("c18", tier, parallel_thorough=6),
+    "rule": hist_rule("profile removal", "at least one present event was removed or vanished"),
+    "assumptions": [],
 }
